@@ -496,6 +496,11 @@ class TGen:
         for key in ("a", "b"):
             text, t = self.expr(v, vt, self.r.randint(1, 3))
             parts.append((key, text, t))
+        if self.r.random() < 0.35:
+            # a key that is no identifier next to the ordinary ones; which type it holds varies from literal to literal in one process
+            text, t = self.expr(v, vt, self.r.randint(1, 2))
+            parts.append((self.r.choice(["n-jets", "class", "jet pt", "2nd"]), text, t))
+            self.odd_keys = getattr(self, "odd_keys", 0) + 1
         key, _, t = self.r.choice(parts)
         if self.r.random() < 0.2:
             # a key written twice holds its last value
@@ -507,7 +512,7 @@ class TGen:
                 body = f"({body} if {c} else {{" + ", ".join(f"'{k}': {x}" for k, x, _ in reversed(parts)) + "})"
                 self.records_cond = getattr(self, "records_cond", 0) + 1
         self.interesting = True
-        return (f"{body}.{key}" if self.r.random() < 0.5 else f"{body}['{key}']"), t
+        return (f"{body}.{key}" if self.r.random() < 0.5 and key.isidentifier() and key != "class" else f"{body}['{key}']"), t
 
 
 def judge_stage(ctx, stream, cur_t, rnd):
@@ -608,6 +613,8 @@ def judge_stage(ctx, stream, cur_t, rnd):
         ctx.count("conditionals-with-equal-branch-types")
     if getattr(g, "records_cond", 0):
         ctx.count("conditionals-of-records-with-permuted-fields", g.records_cond)
+    if getattr(g, "odd_keys", 0):
+        ctx.count("dictionaries-with-a-key-that-is-no-identifier", g.odd_keys)
     if getattr(g, "regops", 0):
         ctx.count("late-registered-operator-uses", g.regops)
     if not same_type(got, exp_t):
